@@ -38,9 +38,10 @@ def recursive_methods(E) -> dict[str, object]:
 
 #: obligations whose failure contradicts the property (rule, construct pattern, why); every other failure is 'not recognised'
 POSITIVE: list[tuple[str, str, str]] = [
-    ('C16.T1', r'.', 'delegation completeness: a recursive tree method of Expression is not overridden in MultipleExpression or forwards other arguments'),
-    ('C16.T5', r'(compat|order|stale|selected)', 'selection: order-insensitive comparison of catalog and controller names, or a catalog selecting with an index of its own'),
 ]
+#: every positive verdict of this module is passed explicitly (positive=True) next to the fact it rests on: a missing override, a
+#: delegation to a fixed member / to the base class / with permuted parameters (T1), an order-insensitive comparison that decides the
+#: compatibility of a shared controller, a selection by an index that is not the controller's (T5), the nesting of the two loops (T6)
 
 
 def run(ctx: Ctx) -> None:
@@ -68,49 +69,30 @@ def run(ctx: Ctx) -> None:
         raise AnalysisError(f'C16.T1: only {len(rec)} recursive tree methods found in Expression')
     for name, f in sorted(rec.items()):
         if name in ALL_MEMBERS:
-            ok = name not in M.methods
-            ctx.add('C16.T1', f'MultipleExpression.{name}', ok, f, f'{name} visits all members by design ({ALL_MEMBERS[name]})' if ok else f'{name} is listed as visiting all members but MultipleExpression overrides it', 'all-members')
+            g = M.methods.get(name)
+            ok = g is None
+            narrowed = False
+            if g is not None:
+                d = _delegation(M, g, name)
+                narrowed = d is not None and d['target'] == 'expr'
+            ctx.add('C16.T1', f'MultipleExpression.{name}', ok if (ok or narrowed) else None, f, f'{name} visits all members by design ({ALL_MEMBERS[name]})' if ok else
+                    (f'{name} must visit every member ({ALL_MEMBERS[name]}) but MultipleExpression overrides it and forwards to the selected member only' if narrowed
+                     else f'{name} is listed as visiting all members but MultipleExpression overrides it'), 'all-members', positive=narrowed)
             continue
         g = M.methods.get(name)
         if g is None:
-            ctx.add('C16.T1', f'MultipleExpression.{name}', False, f, f'Expression.{name} recurses over get_children(), which for a catalog are the children of the selected member: the selected member itself is skipped; MultipleExpression must override {name}', 'missing override')
+            ctx.add('C16.T1', f'MultipleExpression.{name}', False, f, f'Expression.{name} recurses over get_children(), which for a catalog are the children of the selected member: the selected member itself is skipped; MultipleExpression must override {name}', 'missing override', positive=True)
             continue
-        params = g.positional_params()[1:]
+        ok, why = _judge_delegation(M, g, name, f.positional_params()[1:])
         body = [unparse(s) for s in g.body]
-        base_params = f.positional_params()[1:]
-        want_args = ', '.join(params)
-        b = body_is(g.body, f"""
-_U, _E = self.selected()
-return _E.{name}(*__ARGS)
-""".replace('(*__ARGS)', '(' + ', '.join(f'__A{i}' for i in range(len(params))) + ')')) or body_is(g.body, f"""
-_U, _E = self.selected()
-_E.{name}({', '.join(f'__A{i}' for i in range(len(params)))})
-""")
-        ok = b is not None
-        if not ok:
-            # keyword form
-            st = [x for x in g.body if not (isinstance(x, ast.Expr) and isinstance(x.value, ast.Constant))]
-            if len(st) == 2 and body_is(st[:1], '_U, _E = self.selected()') is not None:
-                c = st[1].value if isinstance(st[1], (ast.Return, ast.Expr)) else None
-                recv = body_is(st[:1], '_U, _E = self.selected()')['_E']
-                if isinstance(c, ast.Call) and unparse(c.func) == f'{recv}.{name}':
-                    norm = [unparse(a) for a in c.args] + [unparse(k.value) for k in c.keywords]
-                    kws = [k.arg for k in c.keywords]
-                    ok = norm == params and all(k in base_params for k in kws) and [base_params.index(k) for k in kws] == list(range(len(c.args), len(c.args) + len(kws))) if all(k in base_params for k in kws) else False
-        else:
-            norm = [unparse(b[f'__A{i}'][1]) for i in range(len(params))]
-            ok = norm == params
-        ok = ok and params == base_params[: len(params)] and len(params) == len(base_params)
-        ctx.add('C16.T1', f'MultipleExpression.{name}', ok, g, f'{name} forwards to the selected member with ({want_args})' if ok else f'{name}: {body}', str(body))
+        ctx.add('C16.T1', f'MultipleExpression.{name}', ok, g, f'{name} forwards to the selected member with ({", ".join(g.positional_params()[1:])})' if ok else (why or f'{name}: the delegation to the selected member is not in a recognised form: {body}'), str(body), positive=ok is False)
     for name in ACCESSORS:
         g = M.methods.get(name)
-        ok = g is not None
-        if ok:
-            ok = body_is(g.body, f"""
-_U, _E = self.selected()
-return _E.{name}()
-""") is not None
-        ctx.add('C16.T1', f'MultipleExpression.{name}', ok, g or M, f'{name} is answered by the selected member' if ok else f'{name} does not delegate to the selected member', name)
+        if g is None:
+            ctx.add('C16.T1', f'MultipleExpression.{name}', False, M, f'{name} is not overridden in MultipleExpression: the base-class version answers for the catalog node itself, not for the selected member', name, positive=True)
+            continue
+        ok, why = _judge_delegation(M, g, name, [])
+        ctx.add('C16.T1', f'MultipleExpression.{name}', ok, g, f'{name} is answered by the selected member' if ok else (why or f'{name}: the delegation to the selected member is not in a recognised form'), name, positive=ok is False)
     ctx.floor('C16.T1', 20)
 
     cf = prog.module('configuration')
@@ -238,11 +220,10 @@ return _ALL
 """) is not None
     part = None
     if not ok:
-        h = find(ga.node, '_ALL = {self.controlled_by}\nfor _E in __SRC:\n    _ALL |= _E.get_all_controllers()\nreturn _ALL')
-        src = unparse(h['__SRC'][1]) if h is not None else None
-        uses_selected = any(isinstance(x, ast.Call) and unparse(x.func) in ('self.selected', 'self.get_children') for x in walk_no_nested(ga.node))
-        loops_members = any(isinstance(x, ast.For) and unparse(x.iter) == 'self.children' for x in walk_no_nested(ga.node))
-        if (src is not None and src != 'self.children' and uses_selected) or (uses_selected and not loops_members):
+        # where do the expressions asked for their controllers come from: every member, or the selected one only?
+        sources = [_member_source(K, ga.node, x.func.value) for x in ast.walk(ga.node) if isinstance(x, ast.Call) and isinstance(x.func, ast.Attribute) and x.func.attr == 'get_all_controllers'
+                   and unparse(x.func.value) not in ('self', 'super()')]
+        if sources and all(src == 'selected' for src in sources):
             part = 'the controllers are collected from the currently selected member only (self.selected() / self.get_children() of a catalog), not from every member (self.children): a controller that sits in another alternative is unknown to the central controller, so configurations are missing'
     ctx.add('C16.T3', 'Catalog.get_all_controllers', ok if (ok or part) else None, ga, 'own controller plus the controllers of every member' if ok else (part or f'Catalog.get_all_controllers is not in the expected form: {body}'), str(body), positive=bool(part))
     bg = E.methods['get_all_controllers']
@@ -285,7 +266,12 @@ return (_N, step)
     for name in ('increased_controller', 'decreased_controller', 'two_controllers', 'modify_random_controllers'):
         f = CC.methods[name]
         c = cfg_of(f.node)
-        setc = [n for n in walk_no_nested(f.node) if isinstance(n, ast.Expr) and unparse(n.value) == 'self.set_configuration(current_config)']  # current_config is a parameter
+        own_params = set(f.positional_params()[1:])
+        # self.set_configuration(<a parameter, possibly through a local>), positional or by keyword
+        setc = [n for n in walk_no_nested(f.node) if isinstance(n, ast.Expr) and isinstance(n.value, ast.Call) and unparse(n.value.func) == 'self.set_configuration'
+                and len(n.value.args) + len(n.value.keywords) == 1 and unparse(inline_locals(f.node, (n.value.args + [k.value for k in n.value.keywords])[0])) in own_params]
+        # the configuration handed in may also be applied selection by selection
+        by_hand = any(isinstance(n, (ast.For, ast.comprehension)) and any(isinstance(x, ast.Attribute) and x.attr == 'selections' and isinstance(x.value, ast.Name) and x.value.id in own_params for x in ast.walk(inline_locals(f.node, n.iter))) for n in ast.walk(f.node))
         mods = [n for n in walk_no_nested(f.node) if isinstance(n, ast.Call) and call_name(n) == 'modify_controller']
         # the configuration is read once, after every move, and is the first element of what every return hands back
         # (through a local or directly)
@@ -295,7 +281,7 @@ return (_N, step)
         rets = [n for n in walk_no_nested(f.node) if isinstance(n, ast.Return)]
         ok = ok and all(isinstance(r.value, ast.Tuple) and r.value.elts and unparse(inline_locals(f.node, r.value.elts[0])) == 'self.get_configuration()' for r in rets)
         # positive part: no move before the whole configuration handed in has been applied
-        if mods and not (len(setc) >= 1 and all(any(c.dominates(c.node_of(s_), c.node_of(m)) for s_ in setc) for m in mods)):
+        if mods and not by_hand and not (len(setc) >= 1 and all(any(c.dominates(c.node_of(s_), c.node_of(m)) for s_ in setc) for m in mods)):
             ctx.add('C16.T4', f'CentralController.{name}:starts-from-argument', False, f,
                     f'{name} moves a controller without first applying the configuration it was given (self.set_configuration(current_config)): the other controllers keep whatever an earlier call left, so the result is not a function of the argument and increase / decrease are not inverse', 'start', positive=True)
             continue
@@ -332,8 +318,13 @@ _C2.modify_controller(step=_S2, circular=True)
     ctx.add('C16.T4', 'CentralController.two_controllers:directions', ok, tc, 'E/W moves the first controller, N/S the second, opposite directions are opposite steps' if ok else 'directions of two_controllers changed', 'dir')
 
     sel = K.methods['selected']
-    ok = [unparse(s) for s in sel.body] == ['return self.named_expressions[self.controlled_by.current_index]']
-    ctx.add('C16.T5', 'Catalog.selected', ok, sel, 'the member at the current index of the controller' if ok else 'Catalog.selected changed', 'selected')
+    st_ = _statements(sel.body)
+    rv = inline_locals(sel.node, st_[-1].value) if st_ and isinstance(st_[-1], ast.Return) and st_[-1].value is not None else None
+    ok = rv is not None and unparse(rv) == 'self.named_expressions[self.controlled_by.current_index]' and all(isinstance(x, (ast.Assign, ast.AnnAssign)) for x in st_[:-1])
+    stale = None
+    if not ok and rv is not None and isinstance(rv, ast.Subscript) and unparse(rv.value) == 'self.named_expressions' and _own_state_only(K, rv.slice):
+        stale = f'the catalog picks its member with `{unparse(rv.slice)}`, built from its own attributes only, not with the current index of its controller (self.controlled_by.current_index): moving the controller does not change the selected member'
+    ctx.add('C16.T5', 'Catalog.selected', ok if (ok or stale) else None, sel, 'the member at the current index of the controller' if ok else (stale or 'Catalog.selected changed'), 'selected', positive=bool(stale))
     sn = K.methods['selected_name']
     ok = [unparse(s) for s in sn.body] == ['return self.named_expressions[self.controlled_by.current_index].name']
     ctx.add('C16.T5', 'Catalog.selected_name', ok, sn, 'name of the member at the current index' if ok else 'Catalog.selected_name changed', 'selected_name')
@@ -355,14 +346,49 @@ else:
     if b is not None and m_node(_parse('[_N.name for _N in self.named_expressions]')[0].value, b['__NAMES'][1], {}) and unparse(inline_locals(ki.node, b['__CN'][1])) == 'catalog_name':
         cmp_ = inline_locals(ki.node, b['__CMP'][1])
         txt = unparse(cmp_)
-        sides = [unparse(x) for x in ([cmp_.left] + cmp_.comparators)] if isinstance(cmp_, ast.Compare) and len(cmp_.ops) == 1 and isinstance(cmp_.ops[0], ast.NotEq) else []
         names_txt = unparse(inline_locals(ki.node, ast.Name(id=b['_NAMES'], ctx=ast.Load())))
         good = {names_txt, b['_NAMES']}
-        ctrl_forms = {'list(controlled_by.specification_names)', 'list(self.controlled_by.specification_names)'}
-        if len(sides) == 2 and ((sides[0] in good and sides[1] in ctrl_forms) or (sides[1] in good and sides[0] in ctrl_forms)):
+
+        def side(e):
+            while isinstance(e, ast.Call) and isinstance(e.func, ast.Name) and e.func.id in ('list', 'tuple') and len(e.args) == 1 and not e.keywords:
+                e = e.args[0]
+            t = unparse(e)
+            return 'names' if t in good else 'ctrl' if t in ('controlled_by.specification_names', 'self.controlled_by.specification_names') else None
+
+        def atom(e):
+            """'ordered' / 'unordered' comparison of the catalog names with the controller names, or None"""
+            if not (isinstance(e, ast.Compare) and len(e.ops) == 1 and isinstance(e.ops[0], (ast.Eq, ast.NotEq))):
+                return None
+            l, r = e.left, e.comparators[0]
+            if {side(l), side(r)} == {'names', 'ctrl'}:
+                return 'ordered'
+            wrapped = [x.args[0] for x in (l, r) if isinstance(x, ast.Call) and isinstance(x.func, (ast.Name, ast.Attribute)) and (x.func.id if isinstance(x.func, ast.Name) else x.func.attr) in ('set', 'sorted', 'frozenset', 'Counter')
+                       and len(x.args) == 1 and not x.keywords]
+            if len(wrapped) == 2 and {side(wrapped[0]), side(wrapped[1])} == {'names', 'ctrl'}:
+                return 'unordered'
+            return None
+
+        def refuses_permutation(e):
+            """value of the refusal condition when the controller lists the names of the catalog in another order (True / False / None = not determined)"""
+            if isinstance(e, ast.UnaryOp) and isinstance(e.op, ast.Not):
+                v = refuses_permutation(e.operand)
+                return None if v is None else not v
+            if isinstance(e, ast.BoolOp):
+                vals = [refuses_permutation(v) for v in e.values]
+                absorbing = isinstance(e.op, ast.Or)
+                if any(v is absorbing for v in vals):
+                    return absorbing
+                return (not absorbing) if all(v is (not absorbing) for v in vals) else None
+            k = atom(e)
+            if k is None:
+                return None
+            differ = k == 'ordered'  # as sequences they differ, as sets / sorted lists they are equal
+            return differ if isinstance(e.ops[0], ast.NotEq) else not differ
+
+        if atom(cmp_) == 'ordered' and isinstance(cmp_.ops[0], ast.NotEq) and {unparse(cmp_.left), unparse(cmp_.comparators[0])} & {'list(controlled_by.specification_names)', 'list(self.controlled_by.specification_names)'}:
             ok = True
-        elif any(w in txt for w in ('set(', 'sorted(', 'frozenset(', 'Counter(')):
-            ok, why = False, f'the names of a catalog and of its shared controller are compared without their order ({txt}): members are selected by position, so catalogs sharing a controller may take different alternatives under one configuration'
+        elif refuses_permutation(cmp_) is False:
+            ok, why = False, f'the names of a catalog and of its shared controller are compared without their order ({txt}): a controller that lists the same names in another order is accepted; members are selected by position, so catalogs sharing a controller may take different alternatives under one configuration'
     ctx.add('C16.T5', 'Catalog.__init__:controller', ok, ki, 'an own controller lists the member names; a shared one must list exactly the same names in the same order' if ok else why, 'compat', positive=ok is False)
     si = ctrl.methods['set_index']
     ok = has(si.node, """
@@ -435,15 +461,242 @@ return beta_index + (_K + 1) * len(self.beta_parameters)
     if bl is None or br is None:
         ctx.add('C16.T6', 'SegmentedParameters:layout', None, spi, 'the construction of the parameter list or get_index is not in the expected form (generic parameters, then one block per alternative; index = beta_index + (alt_index + 1) * number of parameters)', 'layout')
     else:
+        def role(e):
+            """what a loop iterates: 'alts' / 'betas' (through locals and order-preserving copies), None = something else"""
+            e = inline_locals(spi.node, e)
+            while True:
+                if isinstance(e, ast.Call) and isinstance(e.func, ast.Name) and e.func.id in ('list', 'tuple', 'iter') and len(e.args) == 1 and not e.keywords:
+                    e = inline_locals(spi.node, e.args[0])
+                elif isinstance(e, ast.Call) and isinstance(e.func, ast.Attribute) and e.func.attr == 'copy' and not e.args and not e.keywords:
+                    e = e.func.value
+                elif isinstance(e, ast.Subscript) and unparse(e.slice) == ':':
+                    e = e.value
+                else:
+                    break
+            t = unparse(e)
+            return 'alts' if t in ('self.alternatives', bl['_A']) else 'betas' if t in ('self.beta_parameters', bl['_B']) else None
+
         outer, inner = unparse(bl['__IT1'][1]), unparse(bl['__IT2'][1])
-        ok = outer in ('self.alternatives', bl['_A']) and inner in ('self.beta_parameters', bl['_B']) and unparse(bl['__G1'][1]) == bl['_Y'] and unparse(bl['__G2'][1]) == bl['_X']
-        ctx.add('C16.T6', 'SegmentedParameters:layout', ok, spi, 'the list holds the generic parameters, then one block per alternative; get_index addresses block alt_index + 1, entry beta_index' if ok else
-                f'the alternative-specific parameters are created by `for {unparse(bl["__G1"][1])} in {outer} for {unparse(bl["__G2"][1])} in {inner}`, i.e. one block per element of {outer}, but get_index reads entry '
-                'beta_index of the block of the alternative (beta_index + (alt_index + 1) * number of parameters): with two or more parameters the catalogs receive the parameter of another coefficient / alternative', f'{outer}/{inner}', positive=True)
+        r1, r2 = role(bl['__IT1'][1]), role(bl['__IT2'][1])
+        g1, g2 = unparse(bl['__G1'][1]), unparse(bl['__G2'][1])
+        ok = (r1, r2) == ('alts', 'betas') and g1 == bl['_Y'] and g2 == bl['_X']
+        # the contradiction is the nesting: the parameter loop outside, the alternative loop inside
+        swapped = (r1, r2) == ('betas', 'alts') and g1 == bl['_X'] and g2 == bl['_Y']
+        ctx.add('C16.T6', 'SegmentedParameters:layout', ok if (ok or swapped) else None, spi, 'the list holds the generic parameters, then one block per alternative; get_index addresses block alt_index + 1, entry beta_index' if ok else
+                (f'the alternative-specific parameters are created by `for {g1} in {outer} for {g2} in {inner}`, i.e. one block per parameter (the loop over the parameters is the outer one), but get_index reads entry '
+                 'beta_index of the block of the alternative (beta_index + (alt_index + 1) * number of parameters): with two or more parameters the catalogs receive the parameter of another coefficient / alternative' if swapped else
+                 f'the loops that create the alternative-specific parameters (`for {g1} in {outer} for {g2} in {inner}`) are not in the expected form'), f'{outer}/{inner}', positive=swapped)
     # note outside the stated property
     mr = CC.methods['modify_random_controllers']
     if 'the_modification = 1 if increase else 1' in unparse(mr.node):
         ctx.note('controller.modify_random_controllers: `1 if increase else 1` - the "decrease several" operator increases (the result is still a valid configuration; outside the stated property)')
+
+
+def _selected_part(M, func: ast.AST, e: ast.expr, depth: int = 6) -> str | None:
+    """what `e`, evaluated in method `func` of MultipleExpression, denotes: 'pair' = the NamedExpression self.selected(), 'expr' = its
+    expression, 'name' = its name; None = something else / not established"""
+    if depth == 0:
+        return None
+    if isinstance(e, ast.Call) and not e.args and not e.keywords and isinstance(e.func, ast.Attribute) and unparse(e.func.value) == 'self':
+        if e.func.attr == 'selected':
+            return 'pair'
+        h = M.resolve(e.func.attr)
+        if h is None or e.func.attr in ('get_children', 'get_id', 'get_value', 'get_signature') or len(h.positional_params()) != 1:
+            return None
+        # an own accessor of the class: what its single return hands back
+        rets = [n for n in walk_no_nested(h.node) if isinstance(n, ast.Return)]
+        st = _statements(h.body)
+        if len(rets) != 1 or not st or st[-1] is not rets[0] or rets[0].value is None or not all(isinstance(x, (ast.Assign, ast.AnnAssign)) for x in st[:-1]):
+            return None
+        return _selected_part(M, h.node, rets[0].value, depth - 1)
+    if isinstance(e, ast.Subscript):
+        base = _selected_part(M, func, e.value, depth - 1)
+        if base == 'pair' and isinstance(e.slice, ast.Constant) and isinstance(e.slice.value, int) and not isinstance(e.slice.value, bool):
+            return {0: 'name', -2: 'name', 1: 'expr', -1: 'expr'}.get(e.slice.value)
+        return None
+    if isinstance(e, ast.Attribute):
+        base = _selected_part(M, func, e.value, depth - 1)
+        if base == 'pair':
+            return {'name': 'name', 'expression': 'expr'}.get(e.attr)
+        return None
+    if isinstance(e, ast.Name):
+        a = func.args
+        if e.id in {x.arg for x in a.posonlyargs + a.args + a.kwonlyargs}:
+            return None
+        found = []
+        for n in walk_no_nested(func):
+            tg, val = [], None
+            if isinstance(n, ast.Assign):
+                tg, val = n.targets, n.value
+            elif isinstance(n, ast.AnnAssign):
+                tg, val = [n.target], n.value
+            elif isinstance(n, (ast.AugAssign, ast.NamedExpr)):
+                tg, val = [n.target], None
+            elif isinstance(n, (ast.For, ast.comprehension)):
+                tg, val = [n.target], None
+            elif isinstance(n, ast.With):
+                tg, val = [it.optional_vars for it in n.items if it.optional_vars is not None], None
+            for t in tg:
+                if isinstance(t, ast.Name) and t.id == e.id:
+                    found.append((val, None))
+                elif isinstance(t, (ast.Tuple, ast.List)):
+                    for i, x in enumerate(t.elts):
+                        if isinstance(x, ast.Name) and x.id == e.id:
+                            found.append((val, i if len(t.elts) == 2 else 'other'))
+                        elif any(isinstance(y, ast.Name) and y.id == e.id for y in ast.walk(x)):
+                            found.append((None, None))
+        if len(found) != 1 or found[0][0] is None:
+            return None
+        val, idx = found[0]
+        base = _selected_part(M, func, val, depth - 1)
+        if idx is None:
+            return base
+        return {0: 'name', 1: 'expr'}.get(idx) if base == 'pair' else None
+    return None
+
+
+def _own_state_only(K, e: ast.expr) -> bool:
+    """e is built from constants and plain instance attributes of the catalog itself (self.X with X neither a method nor a property of
+    the class or its bases, and not the controller), possibly through getattr(self, 'X', default)"""
+    def plain(attr: str) -> bool:
+        return attr != 'controlled_by' and K.resolve(attr) is None and not any(attr in c.assigns for c in K.mro())
+
+    seen_attr = False
+    stack = [e]
+    while stack:
+        x = stack.pop()
+        if isinstance(x, ast.Constant):
+            continue
+        if isinstance(x, ast.Attribute) and unparse(x.value) == 'self' and plain(x.attr):
+            seen_attr = True
+            continue
+        if isinstance(x, ast.Call) and unparse(x.func) == 'getattr' and len(x.args) in (2, 3) and unparse(x.args[0]) == 'self' and isinstance(x.args[1], ast.Constant) \
+                and isinstance(x.args[1].value, str) and plain(x.args[1].value) and all(isinstance(a, ast.Constant) for a in x.args[2:]):
+            seen_attr = True
+            continue
+        if isinstance(x, (ast.BinOp, ast.UnaryOp)):
+            stack += [c for c in ast.iter_child_nodes(x) if isinstance(c, ast.expr)]
+            continue
+        return False
+    return True if seen_attr or isinstance(e, ast.Constant) else False
+
+
+def _member_source(K, func: ast.AST, recv: ast.expr) -> str | None:
+    """where the receiver of a recursive call in a method of the catalog comes from: 'members' (every member: self.children /
+    self.named_expressions), 'selected' (the selected member or its children), None = not established"""
+    def of_iterable(it: ast.expr, target: ast.expr, name: str) -> str | None:
+        it = inline_locals(func, it)
+        while isinstance(it, ast.Call) and isinstance(it.func, ast.Name) and it.func.id in ('list', 'tuple', 'iter', 'set') and len(it.args) == 1:
+            it = inline_locals(func, it.args[0])
+        t = unparse(it)
+        if t == 'self.children' and isinstance(target, ast.Name):
+            return 'members'
+        if t in ('self.named_expressions', 'self.get_iterator()'):
+            return 'members'
+        if isinstance(it, ast.Call) and isinstance(it.func, ast.Attribute) and it.func.attr == 'get_children' and not it.args \
+                and (unparse(it.func.value) == 'self' or _selected_part(K, func, it.func.value) == 'expr'):
+            return 'selected'
+        return None
+
+    if _selected_part(K, func, recv) == 'expr':
+        return 'selected'
+    base = recv
+    while isinstance(base, (ast.Attribute, ast.Subscript)):
+        base = base.value
+    if not isinstance(base, ast.Name):
+        return None
+    binders = []
+    for n in ast.walk(func):
+        if isinstance(n, (ast.For, ast.comprehension)) and any(isinstance(x, ast.Name) and x.id == base.id for x in ast.walk(n.target)):
+            binders.append(n)
+        elif isinstance(n, (ast.Assign, ast.AnnAssign, ast.AugAssign, ast.NamedExpr)) and any(
+                isinstance(x, ast.Name) and x.id == base.id for t in (n.targets if isinstance(n, ast.Assign) else [n.target]) for x in ast.walk(t)):
+            return None
+    if len(binders) != 1:
+        return None
+    return of_iterable(binders[0].iter, binders[0].target, base.id)
+
+
+def _statements(body: list) -> list:
+    return [x for x in body if not (isinstance(x, ast.Expr) and isinstance(x.value, ast.Constant))]
+
+
+def _delegation(M, g, name: str) -> dict | None:
+    """the shape `<locals>; [return] R.name(args)` of an override: the final call, its receiver and what the receiver denotes
+    ('expr' = the selected expression, 'fixed' = one member chosen by a constant position, 'base' = the base-class version, None)"""
+    st = _statements(g.body)
+    if not st or not all(isinstance(x, (ast.Assign, ast.AnnAssign)) and all(isinstance(t, (ast.Name, ast.Tuple)) for t in (x.targets if isinstance(x, ast.Assign) else [x.target])) for x in st[:-1]):
+        return None
+    last = st[-1]
+    c = last.value if isinstance(last, (ast.Return, ast.Expr)) else None
+    if isinstance(last, ast.Return) and isinstance(c, ast.Name):
+        # `r = E.name(args)` then `return r`
+        held = [x for x in st[:-1] if isinstance(x, (ast.Assign, ast.AnnAssign)) and any(isinstance(t, ast.Name) and t.id == c.id for t in (x.targets if isinstance(x, ast.Assign) else [x.target]))]
+        if len(held) == 1 and held[0] is st[-2] and isinstance(held[0].value, ast.Call):
+            c, st = held[0].value, st[:-2] + [last]
+    if not (isinstance(c, ast.Call) and isinstance(c.func, ast.Attribute) and c.func.attr == name):
+        return None
+    recv = c.func.value
+    target = _selected_part(M, g.node, recv)
+    if target is None:
+        r = inline_locals(g.node, recv)
+        # through a tuple unpacking the inliner leaves the name: resolve `_, e = X` by hand for the fixed-member form
+        if isinstance(r, ast.Name):
+            for n in walk_no_nested(g.node):
+                if isinstance(n, ast.Assign) and len(n.targets) == 1 and isinstance(n.targets[0], ast.Tuple) and len(n.targets[0].elts) == 2 \
+                        and isinstance(n.targets[0].elts[1], ast.Name) and n.targets[0].elts[1].id == r.id:
+                    r = inline_locals(g.node, n.value)
+        x = r
+        while isinstance(x, (ast.Attribute, ast.Subscript)) and not (isinstance(x, ast.Subscript) and unparse(x.value) in ('self.named_expressions', 'self.children', 'self.list_of_named_expressions')):
+            if isinstance(x, ast.Subscript) and not (isinstance(x.slice, ast.Constant) and x.slice.value in (0, 1, -1)):
+                break
+            if isinstance(x, ast.Attribute) and x.attr != 'expression':
+                break
+            x = x.value
+        if isinstance(x, ast.Subscript) and unparse(x.value) in ('self.named_expressions', 'self.children', 'self.list_of_named_expressions') and isinstance(x.slice, ast.Constant) and isinstance(x.slice.value, int):
+            target = 'fixed'
+        elif unparse(r) == 'super()' or (isinstance(r, ast.Name) and r.id == 'Expression' and c.args and unparse(c.args[0]) == 'self'):
+            target = 'base'
+    return {'call': c, 'recv': recv, 'target': target, 'prefix': st[:-1], 'last': last, 'resolved': unparse(r) if target in ('fixed', 'base') else unparse(recv)}
+
+
+def _judge_delegation(M, g, name: str, base_params: list[str]) -> tuple[bool | None, str]:
+    """(True, '') the override hands the call to the selected expression with its own parameters in order; (False, why) it contradicts
+    the property (fixed member, base class, permuted parameters, all members returned); (None, '') the form is not recognised"""
+    params = g.positional_params()[1:]
+    d = _delegation(M, g, name)
+    if d is None:
+        st = _statements(g.body)
+        if name == 'get_children' and len(st) == 1 and isinstance(st[0], ast.Return) and st[0].value is not None \
+                and unparse(inline_locals(g.node, st[0].value)) in ('self.children', 'list(self.children)', '[_e for _, _e in self.named_expressions]'):
+            return False, 'get_children returns every member of the catalog (self.children) instead of the children of the selected member: the recursive tree methods then walk all the alternatives, not the configured specification'
+        return None, ''
+    if d['target'] == 'fixed':
+        return False, f'{name} is forwarded to a member chosen by a constant position ({d["resolved"]}), not to the selected member self.selected(): the answer does not follow the configuration'
+    if d['target'] == 'base':
+        return False, f'{name} hands over to the base-class version, which recurses over get_children(), i.e. below the selected member: the selected member itself is skipped'
+    if d['target'] != 'expr':
+        return None, ''
+    if not all(_selected_part(M, g.node, x.value) is not None for x in d['prefix'] if x.value is not None):
+        return None, ''
+    c = d['call']
+    if any(isinstance(a, ast.Starred) for a in c.args) or any(k.arg is None for k in c.keywords):
+        return None, ''
+    if params != base_params:
+        return None, ''
+    if len(c.args) + len(c.keywords) != len(params) or not all(k.arg in base_params for k in c.keywords):
+        return None, ''
+    given = {base_params[i]: unparse(inline_locals(g.node, a)) for i, a in enumerate(c.args)}
+    for k in c.keywords:
+        if k.arg in given:
+            return None, ''
+        given[k.arg] = unparse(inline_locals(g.node, k.value))
+    if all(given.get(p_) == p_ for p_ in params):
+        return True, ''
+    if sorted(given.values()) == sorted(params):
+        swapped = ', '.join(f'{v} as {k}' for k, v in given.items() if k != v)
+        return False, f'{name} forwards its parameters to the selected member in another order ({swapped})'
+    return None, ''
 
 
 _M = 'src/biogeme/expressions/multiple_expressions.py'
